@@ -75,7 +75,12 @@ class ImmutableKnotVector(tuple):
         return instance
 
     def __add__(self, nodes: Tuple[float]) -> ImmutableKnotVector:
-        return self.__class__(sorted(list(self) + list(nodes)))
+        nodes = list(nodes)
+        umin, umax = self.limits
+        for node in nodes:
+            if node < umin or umax < node:
+                raise ValueError
+        return self.__class__(sorted(list(self) + nodes))
 
     def __sub__(self, nodes: Tuple[float]) -> ImmutableKnotVector:
         lista = list(self)
